@@ -24,5 +24,6 @@ def plan(ctx):
     if ctx.quick():
         return (evplan.queries(ctx, 'c08', GRAMMARS, ['plain', 'plain_nu', 'void0', 'bool', 'bool0'], N, modes=('ar', 'ao')) +
                 evplan.queries(ctx, 'c08', GRAMMARS[:5], ['statectl_bool'], N, modes=('ar',)) +
+                evplan.queries(ctx, 'c08', GRAMMARS[5:], ['statectl'], N, modes=('ar',)) +
                 evplan.queries(ctx, 'c08', GRAMMARS[:4], ['statectl_rot', 'rmfirst'], N, modes=('ar',)))
     return evplan.queries(ctx, 'c08', GRAMMARS, ['plain', 'plain_nu', 'void', 'void_nu', 'bool', 'bool_nu', 'void0', 'bool0', 'statectl', 'statectl_bool', 'statectl_void0', 'statectl_rot', 'rmfirst'], N, modes=('ar', 'ao', 'nr', 'no'))
